@@ -155,6 +155,11 @@ var disjointMergeRe = regexp.MustCompile(`union-disjoint\(([a-z0-9_]*)\)-merge`)
 // order names the disjoint column (known finding union-disjoint-merge-order).
 func disjointMergeOrder(strat, msg string) bool {
 	first := strings.SplitN(msg, "\n", 2)[0]
+	if strings.HasPrefix(first, "rows not") && disjointMergeRe.MatchString(strat) {
+		// any column fixed to different values in the operands (the
+		// disjoint column, or another constant extend) is affected
+		return true
+	}
 	for _, m := range disjointMergeRe.FindAllStringSubmatch(strat, -1) {
 		if regexp.MustCompile(`\b` + regexp.QuoteMeta(m[1]) + `\b`).MatchString(first) {
 			return true
@@ -189,10 +194,10 @@ type c23stats struct {
 
 // TestC23: query access operations honour their contracts.
 func TestC23(t *testing.T) {
-	rec := ev.New("C23", "rapid: same databases/requests/plans as C22 (Setup read/update/cursor; Optimize+SetApproach with a random legal requirement none/order/group/unique and randomised test switches). Checked against the Next list L of the same plan: Rewind+all Prev = reverse(L); walks of Next/Prev/Rewind against a cursor model incl. sticking at eof; order(cols): L sorted by packed cols, group(cols): equal cols contiguous, sort: sorted; unique(cols): Lookup with sels on exactly cols (+ optional extra columns) for present rows, absent values, wrong extra values; order/group(cols): Select on exactly cols (+ extras) hit/miss then Next and Prev, Select(nil) restores L; every Keys() entry unique over L, every Fixed() value list contains the row's value. Operations are limited to those legal for the requirement (require.go). Non-trivial: walk with >= 1 direction change and >= 1 Select/Lookup hit and miss; distinct = query text + database + plan.")
+	rec := ev.New("C23", "rapid: same databases/requests/plans as C22 (Setup read/update/cursor; Optimize+SetApproach with a random legal requirement none/order/group/unique and randomised test switches). Checked against the Next list L of the same plan: Rewind+all Prev = reverse(L); walks of Next/Prev/Rewind against a cursor model incl. sticking at eof; order(cols): L sorted by packed cols, group(cols): equal cols contiguous, sort: sorted; unique(cols): Lookup with sels on exactly cols (+ optional extra columns) for present rows, absent values, wrong extra values; order/group(cols): Select on exactly cols hit/miss then Next and Prev, Select(nil) restores L; every Keys() entry unique over L, every Fixed() value list contains the row's value. Operations are limited to those legal for the requirement (require.go). Non-trivial: walk with >= 1 direction change and >= 1 Select/Lookup hit and miss; distinct = query text + database + plan.")
 	rec.Assumptions = []string{
 		"sortForTest is on (deterministic list values / summarize-map order)",
-		"Select/Lookup sels cover exactly the required columns, optionally plus extra columns of the query (query.go: extra columns are ignored, the caller filters)",
+		"Select sels cover exactly the required columns; Lookup sels cover them, optionally plus extra columns of the query (query.go: extra columns are ignored, the caller filters)",
 		"rows are compared by column values (packed), not by record identity",
 	}
 	defer rec.Write()
@@ -235,13 +240,6 @@ func TestC23(t *testing.T) {
 					(strings.HasPrefix(msg, "Keys()") && disjointMergeUnderSeq(x.strat)) {
 					if e, ok := kf.Known("C23", "union-disjoint-merge-order"); ok {
 						rec.Excluded("union-disjoint-merge-order")
-						rec.Known(e.What)
-						return
-					}
-				}
-				if strings.HasPrefix(msg, "Select(") && strings.Contains(x.strat, "union-merge") && hasIn(c.tq.q) {
-					if e, ok := kf.Known("C23", "union-merge-select-in"); ok {
-						rec.Excluded("union-merge-select-in")
 						rec.Known(e.What)
 						return
 					}
